@@ -48,7 +48,7 @@ type smokeResult struct {
 }
 
 const (
-	ioTimeout    = 3 * time.Second
+	ioTimeout    = 8 * time.Second
 	shortTimeout = 150 * time.Millisecond
 )
 
@@ -198,7 +198,7 @@ func (r *running) stop() bool {
 	case <-r.done:
 		r.mgr.Close()
 		return true
-	case <-time.After(10 * time.Second):
+	case <-time.After(20 * time.Second):
 		return false
 	}
 }
@@ -431,7 +431,7 @@ func frontConfig(proto, tcpAddr, udpAddr, psk string, ipsks []string) string {
 
 func smokeWorker(inputPath string) {
 	// the watchdog only bounds the run; its firing is reported as a cap by the parent
-	time.AfterFunc(40*time.Second, func() {
+	time.AfterFunc(90*time.Second, func() {
 		fmt.Fprintln(os.Stderr, "C18-WORKER-WATCHDOG")
 		os.Exit(4)
 	})
